@@ -1081,6 +1081,21 @@ Section WellFormed.
       replace (7 + length T - 6) with (length (c_eq :: T)) by (cbn [length]; lia). apply firstn_app_len. reflexivity. }
     rewrite TN. exact HT.
   Qed.
+  Theorem leading_byte_shifts_type x T lead s1 s2 s3 b trail :
+    ~ In c_eq T ->
+    (forall t sec msec sq,
+       get_type type_of (c_eq :: T) = TyOk t -> all_space lead = true -> all_space trail = true ->
+       parse_int 64 s1 = NumOk sec -> parse_int 64 s2 = NumOk msec -> parse_uint 32 s3 = NumOk sq -> clean_end b ->
+       parse_log_line type_of (x :: type_token ++ T ++ c_sp :: msg_token ++ lead ++ header_text s1 s2 s3 ++ b ++ trail)
+       = POk (mkMsg t sec msec sq (index_of_message (c_rparen :: b)) (header_text s1 s2 s3 ++ b))) /\
+    (get_type type_of (c_eq :: T) = TyErr ->
+     parse_log_line type_of (x :: type_token ++ T ++ c_sp :: msg_token ++ lead ++ header_text s1 s2 s3 ++ b ++ trail)
+     = PErrType).
+  Proof.
+    intros Hn. split.
+    - intros t sec msec sq. apply shifted_line_parses. exact Hn.
+    - apply shifted_line_err. exact Hn.
+  Qed.
 End WellFormed.
 
 (* ------------------------------------------------------------------ time *)
@@ -1095,3 +1110,77 @@ Proof.
   destruct (Z.ltb_spec (msec * 1000000) 0) as [H1|H1]; [lia|].
   destruct (Z.leb_spec 1000000000 (msec * 1000000)) as [H2|H2]; [lia|]. reflexivity.
 Qed.
+
+(* ------------------------------------------------------------------ parseAuditLogs *)
+From AM Require Import Model.AuditProc Proofs.AuditProcLemmas.
+
+Section Loop.
+  Variable type_of : str -> option N.
+
+  (* a line of ASCII white space only - the blank line "\n" in particular - is NOT skipped by parseAuditLogs
+     (only "" is) and is rejected by the parser *)
+  Lemma white_line_rejected l : all_space l = true -> parse_log_line type_of l = PErrHeader.
+  Proof.
+    intros H. apply parse_log_line_err_header_iff. left.
+    apply go_index_fresh_nil; [discriminate|]. apply space_not_in_msg_token. exact H.
+  Qed.
+
+  Lemma white_line_fate ws : ws <> [] -> all_space ws = true ->
+    audit_is_empty ws = false /\ parse_log_line type_of ws = PErrHeader /\
+    audit_line_fate type_of ws = LStops PErrHeader /\ audit_line_fate type_of [] = LSkipped.
+  Proof.
+    intros Hne Hws. assert (E : audit_is_empty ws = false) by (destruct ws; [congruence|reflexivity]).
+    split; [exact E|]. split; [exact (white_line_rejected ws Hws)|]. split; [|reflexivity].
+    unfold audit_line_fate. rewrite E, (white_line_rejected ws Hws). reflexivity.
+  Qed.
+
+  Lemma parse_opt_some l m : parse_opt type_of l = Some m <-> parse_log_line type_of l = POk m.
+  Proof.
+    unfold parse_opt. destruct (parse_log_line type_of l); split; try discriminate; intros [= ->]; reflexivity.
+  Qed.
+
+  Lemma parse_opt_none l :
+    parse_log_line type_of l <> PUnmodelled ->
+    (parse_opt type_of l = None <-> parse_log_line type_of l = PErrHeader \/ parse_log_line type_of l = PErrType).
+  Proof.
+    intros HU. pose proof (parse_log_line_never_panics type_of l) as HP. unfold parse_opt.
+    destruct (parse_log_line type_of l); split; try discriminate; try congruence; try tauto;
+      try (intros [H|H]; discriminate).
+  Qed.
+
+  Lemma audit_is_empty_false l : audit_is_empty l = false <-> l <> [].
+  Proof. destruct l; cbn; split; congruence. Qed.
+
+  (* C15_parse_first with the parser inside the model: the loop stops at the first non-empty line that
+     ParseLogLine rejects, and which lines those are is parse_log_line_ok_iff / _err_header_iff / _err_type_iff *)
+  Theorem parse_stops_at ls :
+    (forall l, In l ls -> parse_log_line type_of l <> PUnmodelled) ->
+    match snd (parse_loop str amsg audit_is_empty (parse_opt type_of) ls) with
+    | Some l => exists pre post, ls = pre ++ l :: post /\ l <> [] /\
+                  (parse_log_line type_of l = PErrHeader \/ parse_log_line type_of l = PErrType) /\
+                  (forall x, In x pre -> x <> [] -> exists m, parse_log_line type_of x = POk m) /\
+                  fst (parse_loop str amsg audit_is_empty (parse_opt type_of) ls)
+                  = pushes str amsg audit_is_empty (parse_opt type_of) pre
+    | None => (forall x, In x ls -> x <> [] -> exists m, parse_log_line type_of x = POk m) /\
+              fst (parse_loop str amsg audit_is_empty (parse_opt type_of) ls)
+              = pushes str amsg audit_is_empty (parse_opt type_of) ls
+    end.
+  Proof.
+    intros HU. pose proof (parse_loop_spec str amsg audit_is_empty (parse_opt type_of) ls) as S.
+    destruct (snd (parse_loop str amsg audit_is_empty (parse_opt type_of) ls)) as [l|].
+    - destruct S as (pre & post & E & H1 & H2 & H3 & H4). exists pre, post.
+      split; [exact E|]. split; [apply audit_is_empty_false; exact H1|].
+      split; [apply parse_opt_none; [apply HU; rewrite E; apply in_or_app; right; left; reflexivity|exact H2]|].
+      split; [|exact H4]. intros x Hx Hne.
+      specialize (H3 x Hx (proj2 (audit_is_empty_false x) Hne)).
+      destruct (parse_opt type_of x) as [m|] eqn:Em; [|congruence]. exists m. apply parse_opt_some. exact Em.
+    - destruct S as [H3 H4]. split; [|exact H4]. intros x Hx Hne.
+      specialize (H3 x Hx (proj2 (audit_is_empty_false x) Hne)).
+      destruct (parse_opt type_of x) as [m|] eqn:Em; [|congruence]. exists m. apply parse_opt_some. exact Em.
+  Qed.
+
+  (* what the parser hands to the reassembler has a uint32 sequence number: the hypothesis (mseq m < two32) of
+     the reassembler tie (the C15_reassembler_from_source theorems) holds of every pushed message *)
+  Lemma pushed_seq_u32 l m : parse_opt type_of l = Some m -> (a_seq m < 4294967296)%N.
+  Proof. intros H. apply parse_opt_some in H. apply (parse_log_line_ranges type_of l m H). Qed.
+End Loop.
